@@ -176,6 +176,9 @@ CHECKS["C05"] = {
         H("c05.VH_tcp", {"ROUNDS": 7, "TIMEOUTS": 1, "L": 12000, "FLOOD": 1}, {"ROUNDS": 8, "TIMEOUTS": 2, "L": 14000, "FLOOD": 1}, variant="flood",
           covers=["buffer exhausted", "matching timed out", "route handler ran"], validate=False, weight=2),
         H("c05.VH_server", {"ROUNDS": 2, "TIMEOUTS": 2}, {"ROUNDS": 3, "TIMEOUTS": 4}, covers=["server handled", "route handler ran"], validate=False, weight=2),
+        H("c05.VH_tcp_after_match", {"ROUNDS": 2, "TIMEOUTS": 2}, {"ROUNDS": 3, "TIMEOUTS": 4}, covers=["non-terminal route ran", "matching timed out"], validate=False, weight=2, env_only=True),
+        H("c05.VH_udp_rearm", {}, {}, covers=["udp read timed out"], validate=False, env_only=True),
+        H("c01.VH_prefetch_step", {}, {}, covers=["buffer full", "read in place", "read through a pooled chunk"]),
         H("c05.VH_udp_deadline", {}, {}, covers=["udp read timed out"], validate=False),
         H("c05.VH_udp_data", {}, {}, covers=["udp data delivered"], validate=False),
     ],
@@ -300,7 +303,7 @@ CHECKS["C12"] = {
         H("c01.VH_pp_allow", {"OFFSET0": 1, "READS": 1, "ROUNDS": 2}, {"OFFSET0": 1, "READS": 2, "ROUNDS": 2}, covers=["allowed peer", "peer outside the allow list", "recorder ran"], weight=4),
         H("c01.VH_step_proxyproto", {"params": {"READS": 1, "OFFSET0": 1, "MAXB": 5000, "MAXD": 1000, "ROUNDS": 2}, "timeout_ms": 60000},
           {"params": {"READS": 2, "OFFSET0": 0, "MAXB": 9000, "MAXD": 1000, "ROUNDS": 2}, "timeout_ms": 120000}, covers=["recorder ran", "more than 4096 bytes buffered"], weight=5),
-        H("c11.VH_ppsend", {"PEERS": 1}, {"PEERS": 2}, covers=["header sent"], **_envonly),
+        H("c11.VH_ppsend", {"PEERS": 2}, {"PEERS": 2}, covers=["header sent"], **_envonly),
     ],
     "level_text": "bounded model checking (reduced claim): receiver - the real proxy_protocol Handler with its allow list (symbolic IPv4 peer, three CIDRs incl. an overlapping /32) accepts a header only from allowed peers, later handlers see the declared source address and GetConn returns the PROXY connection, other peers are passed through on the same connection with the stream intact; exactly the header bytes are stripped (three concrete valid headers, up to 9000 prefetched bytes); sender - dialPeers writes exactly one header per peer before any payload: v2 bytes compared field by field for a symbolic client address/port, v1 compared with the exact text line for a concrete address",
     "level_note": "the library's header parser is replaced under the engine by 'consume the (concrete, valid) header' while the native twin runs the real parser on the same bytes; TLVs, v2 LOCAL semantics beyond stripping, UNKNOWN/TCP6 families on the sender side and the library parser's behaviour on malformed headers are outside; the v1 text is produced by library code (fmt, net.IP.String) and is only checked for one concrete address",
@@ -314,6 +317,7 @@ CHECKS["C13"] = {
         H("c13.VH_listener", {"CONNS": 2, "L": 3}, {"CONNS": 3, "L": 3}, covers=["delivered and read", "consumed or rejected", "closed"], weight=3, **_envonly),
         H("c13.VH_listener", {"params": {"CONNS": 2, "L": 2}, "preempt": 1}, {"params": {"CONNS": 2, "L": 3}, "preempt": 2}, variant="preempt", covers=["delivered and read", "closed"], weight=5, **_envonly),
         H("c13.VH_close_pending", {"CONNS": 2}, {"CONNS": 3}, covers=["closed with pending connections"], **_envonly),
+        H("c13.VH_close_pending", {"CONNS": 3, "GOMAXPROCS": 1}, {"CONNS": 3, "GOMAXPROCS": 2}, variant="small-queue", covers=["closed with pending connections"], **_envonly),
         H("c13.VH_close_pending", {"params": {"CONNS": 2}, "preempt": 1}, {"params": {"CONNS": 3}, "preempt": 2}, variant="preempt", covers=["closed with pending connections"], weight=2, **_envonly),
     ],
     "level_text": "bounded model checking of the real WrapListener / listener.loop / handle / Accept / Close / pipeConnection / listenerHandler in the engine's goroutine mode (cooperative schedules exhaustively, plus 1-2 pre-emptions at channel/sync operations): 2-3 connections with symbolic streams and segmentation, one content-dependent terminal route; every connection that falls through is delivered by Accept exactly once and reads its own client's stream from the first byte although matching buffers are pooled, connections consumed or rejected by layer4 are never delivered and are closed, after Close Accept reports closure and every pending connection is either delivered or closed, and nothing stays blocked (deadlock = violation)",
@@ -326,6 +330,7 @@ CHECKS["C08"] = {
     "harnesses": [
         H("c13.VH_listener", {"CONNS": 2, "L": 3}, {"params": {"CONNS": 3, "L": 3}, "pool_adversarial": True}, variant="pool", covers=["delivered and read"], weight=3, **_envonly),
         H("c01.VH_step_tee", {"MAXB": 3000}, {"MAXB": 5000}, covers=["recorder ran", "bytes buffered at handler time"], weight=8, validate=False),
+        H("c01.VH_prefetch_step", {}, {}, covers=["read through a pooled chunk"]),
     ],
     "level_text": "cross-talk half only: bounded model checking of pooled matching-buffer lifetime - two or three connections go through the listener wrapper, the first one is handed over (its prefetched bytes still unread) before the next one takes a buffer from the pool and prefetches; every delivered connection must read exactly its own client's bytes. The tee branch/main-chain pair is checked the same way (each reads the whole stream once). The data-race half of the property is NOT decided",
     "level_note": "data races (plain accesses under the real scheduler) are outside a symbolic executor that pre-empts only at synchronisation operations and assumes data-race freedom elsewhere; see DESIGN section 5 C08. One race (round_robin's plain read of its atomic counter) was found by reading and repaired",
@@ -337,7 +342,7 @@ CHECKS["C09"] = {
     "harnesses": [
         H("c09.VH_udp", {"params": {"KIND": k, "DGRAMS": 2, "CLIENTS": 2}, "preempt": (1 if k == 0 else 0)}, {"params": {"KIND": k, "DGRAMS": 2, "CLIENTS": 2}, "preempt": 1}, variant=f"kind{k}",
           covers=["served"] + (["datagram read"] if k else []), weight=4, **_envonly) for k in range(3)
-    ] + [H("c09.VH_udp", {"params": {"KIND": 0, "DGRAMS": 3, "CLIENTS": 1}, "preempt": 1}, {"params": {"KIND": 0, "DGRAMS": 4, "CLIENTS": 1}, "preempt": 2}, variant="burst",
+    ] + [H("c09.VH_partial", {}, {}, covers=["datagram read in pieces", "next datagram read"], **_envonly)] + [H("c09.VH_udp", {"params": {"KIND": 0, "DGRAMS": 3, "CLIENTS": 1}, "preempt": 1}, {"params": {"KIND": 0, "DGRAMS": 4, "CLIENTS": 1}, "preempt": 2}, variant="burst",
            covers=["served", "several virtual connections"], weight=4, **_envonly)],
     "level_text": "bounded model checking of the real Server.servePacket (reader goroutine, select loop, per-client packetConn, closure notifications), packetConn.Read/Write/Close and Server.handle in the engine's goroutine mode on the virtual clock: a burst of 2-4 datagrams from one or two clients against handlers that return at once, read once, or echo; all cooperative schedules plus one pre-emption at a channel/go/sync operation and every choice of ready select case; asserted: no panic in any goroutine (send on closed channel, double close), no deadlock, the loop returns when the socket fails, every read of a virtual connection is the next datagram of its own client (in-order subsequence), replies go to the client whose datagram they answer",
     "level_note": "scripted net.PacketConn; datagrams <= 4 bytes with symbolic content; idle expiry exercised by advancing the virtual clock by 31 s; not natively replayable (schedules)",
